@@ -62,7 +62,7 @@ def check_atomic_publish(ctx, n):
     else:
         p, why = bad[0]
         ctx.candidate(ob, 'batch/not-published-atomically', f'batch: {why}; events: ' + ' · '.join(e.kind for e in p.events)[:200],
-                      confirm=lambda: native_torn(ctx, version_change=False))
+                      confirm=lambda: native_torn_any(ctx, [False, 'writer']))
     return ob, sample
 
 
@@ -200,32 +200,83 @@ def check_schedules(ctx, sample):
 
 
 def native_torn(ctx, version_change):
-    """B commits a two-keyspace batch and is parked between the two applies; the main thread (optionally after a major
-    compaction of a third keyspace = an lsm-tree version change) takes ONE snapshot and reads both keys."""
+    """B commits a two-keyspace batch and is parked between the two applies; meanwhile (version_change =)
+       False      nothing else happens
+       True       the main thread runs a major compaction of a third keyspace (an lsm-tree version change)
+       'writer'   another thread inserts into a third keyspace (must block on the journal lock until the batch is published)
+       'ingest'   another thread bulk-ingests into a third keyspace (must block on the journal lock as well)
+       'clear'    another thread clears a third keyspace
+    then the main thread takes ONE snapshot and reads both keys of the batch."""
     K = '6b31'
     L = ['dir $DIR/db', 'open workers=0', 'ks a', 'ks b', 'ks c', f'insert c {K} 31', 'insert c 6b32 32', 'rotate c', 'worker_drain',
-         f'insert c {K} 33', 'rotate c', 'worker_drain', 'arm_pause batch.between_applies', f'spawn B batch2 a {K} 76 b {K} 76',
+         f'insert c {K} 33', 'rotate c', 'worker_drain', 'ks d', 'arm_pause batch.between_applies', f'spawn B batch2 a {K} 76 b {K} 76',
          'wait_parked batch.between_applies 5000']
-    if version_change:
+    other = {'writer': f'spawn_free W insert c 6b39 39', 'ingest': 'spawn_free W ingest1 d 6b39 39', 'clear': 'spawn_free W clear d'}.get(version_change)
+    if version_change == 'ingest':
+        # the ingestion is parked between its journal-lock acquisition and the tree ingestion; then the batch starts
+        L = L[:L.index('arm_pause batch.between_applies')] + ['arm_pause ingestion.before_finish', 'spawn W ingest1 d 6b39 39', 'wait_parked ingestion.before_finish 3000',
+                                                             'arm_pause batch.between_applies', f'spawn B batch2 a {K} 76 b {K} 76', 'wait_parked batch.between_applies 1500',
+                                                             'release ingestion.before_finish', 'join W', 'wait_parked batch.between_applies 5000']
+        other = None
+    elif version_change is True:
         L.append('major_compact c')
-    L += [f'snapget2 a {K} b {K}', 'release batch.between_applies', 'join B', f'snapget2 a {K} b {K}', 'close']
-    spath, out = ctx.run_scenario('\n'.join(L) + '\n', tag='torn-' + ('vc' if version_change else 'plain'))
+    elif other:
+        L += [other, 'join_timeout W 1500']
+    L += [f'snapget2 a {K} b {K}', 'release batch.between_applies', 'join B'] + (['join_timeout W 5000'] if other else []) + [f'snapget2 a {K} b {K}', 'close']
+    tag = 'torn-' + ('vc' if version_change is True else (version_change or 'plain'))
+    spath, out = ctx.run_scenario('\n'.join(L) + '\n', tag=tag)
     rs = [(c, r) for _i, c, r in out]
     if any(c == 'CRASH' for c, _r in rs):
         return True, spath, 'crash: ' + rs[-1][1][-200:]
     parked = [r for c, r in rs if c == 'wait_parked']
-    if not parked or not parked[0].startswith('ok'):
-        # the committer never reached the point between two applies: also try the reverse item order
+    if not parked or not parked[-1].startswith('ok'):
         return False, spath, f'committer did not park between the applies ({parked})'
     reads = [r for c, r in rs if c == 'snapget2']
     if not reads:
         return False, spath, 'no reads'
     a, b = reads[0].split('|')
     if (a == 'None') != (b == 'None'):
-        return True, spath, f'one snapshot taken while the batch was half applied read a={a} b={b} (must be both or neither)'
+        who = {True: 'a major compaction of another keyspace', 'writer': 'an insert into another keyspace by another thread', 'ingest': 'a bulk ingestion into another keyspace by another thread',
+               'clear': 'a clear of another keyspace by another thread'}.get(version_change, 'nothing else')
+        return True, spath, f'one snapshot taken while the batch was half applied (and {who} completed) read a={a} b={b} (must be both or neither)'
     if len(reads) > 1 and reads[1] != 'Some("76")|Some("76")':
         return True, spath, f'after the commit returned a snapshot read {reads[1]}'
     return False, spath, 'held natively'
+
+
+def native_torn_any(ctx, modes):
+    last = (False, None, 'not run')
+    for m in modes:
+        last = native_torn(ctx, m)
+        if last[0]:
+            return last
+    return last
+
+
+def check_ingest_lock(ctx):
+    """an ingestion is a tree version change issued by a foreground call: it draws a seqno and raises the visible seqno (E5).  It must do so
+    while holding the journal lock, so that it cannot land between the applies of a batch (the writers hold that lock from seqno to publish)."""
+    pat = r'^ingestion::<impl>::finish$'
+    ob = ctx.ob('ingest/under-journal-lock', 'Ingestion::finish: the lsm-tree ingestion (seqno + visible-seqno raise) runs while the journal lock is held', [pat])
+    ex, paths = ctx.run(pat, cache_key='c06.ingest', loop_bound=2, no_inline=[r'SnapshotTracker::gc$'])
+    bad = []
+    for p in paths:
+        fin = [e for e in p.events if e.kind == 'CALL' and e.args.get('callee', '').endswith('AnyIngestion::finish')]
+        if not fin:
+            continue
+        ob.reach += 1
+        locks = [e for e in p.events if e.kind == 'LOCK' and 'journal' in obj_name(e) and e.idx < fin[0].idx]
+        unl = [e for e in p.events if e.kind == 'UNLOCK' and 'journal' in obj_name(e)]
+        if not locks:
+            bad.append((p, 'the ingestion is registered without taking the journal lock'))
+        elif any(locks[-1].idx < u.idx < fin[0].idx for u in unl):
+            bad.append((p, 'the journal lock is released before the ingestion is registered: its visible-seqno raise can land between the applies of a concurrent batch'))
+    if ob.reach == 0:
+        ob.status = 'undecided'; ob.detail = 'vacuous'
+    elif not bad:
+        ob.status = 'discharged'; ob.sample = {'paths': ob.reach}
+    else:
+        ctx.candidate(ob, 'ingestion/version-change-outside-journal-lock', bad[0][1], confirm=lambda: native_torn(ctx, 'ingest'))
 
 
 def run(ctx):
@@ -239,6 +290,7 @@ def run(ctx):
         check_atomic_publish(ctx, 3)
     check_visible_writers(ctx)
     check_tree_counters(ctx)
+    check_ingest_lock(ctx)
     check_schedules(ctx, sample)
     for o in ctx.obligations:
         ctx.samples.append(o.as_dict())
@@ -246,6 +298,8 @@ def run(ctx):
 
 
 MUTANTS = [
+    {'name': 'ingestion does not hold the journal lock', 'edits': [('src/ingestion.rs', "let _journal_lock = self.keyspace.supervisor.journal.get_writer();", "drop(self.keyspace.supervisor.journal.get_writer());")]},
+    {'name': 'batch commit frees the journal lock before applying', 'edits': [('src/batch/mod.rs', "        // TODO: maybe we can use a stack alloc hashset/vec here, such as smallset", "        drop(journal_writer);\n        let journal_writer = ();")]},
     {'name': 'publish before the apply loop', 'edits': [('src/batch/mod.rs', """        let mut batch_size = 0u64;
 """, """        let mut batch_size = 0u64;
         self.db.supervisor.snapshot_tracker.publish(batch_seqno);
